@@ -212,6 +212,32 @@ func c08Run(r *sim.Run) {
 	movie := e.movie
 	top := e.cf.Top
 	variant := ""
+	if e.cf.Progressive && t.Chance(30) {
+		// a second NON-empty media data box (the library supports one): whatever the in-memory decoder says about the
+		// file, the lazy decoder must say too
+		k := 1 + t.Draw(40)
+		extra := make([]byte, 8+k)
+		binary.BigEndian.PutUint32(extra, uint32(8+k))
+		copy(extra[4:], "mdat")
+		var nd []byte
+		if t.Bool() {
+			nd = append(append([]byte(nil), img...), extra...)
+		} else {
+			at := top[len(top)-1].Start
+			nd = append(append(append([]byte(nil), img[:at]...), extra...), img[at:]...)
+		}
+		var em, el error
+		r.Guard("DecodeFile(mem)", func() { _, em = decodeMem(nd) })
+		h := sim.NewHandle(r, e.cf.Name+"+2nd-mdat", nd, sim.DrawDelivery(t))
+		r.Guard("DecodeFile(lazy)", func() { _, el = mp4.DecodeFile(h, mp4.WithDecodeMode(mp4.DecModeLazyMdat)) })
+		r.Logf("file=%s with a second non-empty mdat (%d payload bytes): in-memory err=%v, lazy err=%v", e.cf.Name, k, em, el)
+		r.Event("second-mdat", btoi(em != nil), btoi(el != nil))
+		if (em == nil) != (el == nil) {
+			r.Violate("c08-accept-differs", "%s with a second non-empty mdat box: in-memory decode says %q, lazy decode says %q", e.cf.Name, errStr(em), errStr(el))
+		}
+		r.Probe("second-nonempty-mdat")
+		return
+	}
 	if e.cf.Progressive && t.Chance(400) {
 		v := work.LayoutVariant{LargeMdat: t.Bool(), MdatFirst: t.Bool()}
 		if !v.MdatFirst {
@@ -344,6 +370,22 @@ func c08Run(r *sim.Run) {
 		return
 	}
 	nops := 1 + t.Draw(8)
+	// results of earlier lazy reads are kept by the caller and looked at again after the whole history: in memory mode a
+	// result is a view of immutable media data, so in lazy mode it must not change under the caller's feet either
+	type kept struct {
+		op     int
+		st, sz int64
+		got    []byte
+	}
+	var keep []kept
+	defer func() {
+		for _, k := range keep {
+			if k.st+k.sz <= int64(len(disk)) && !bytes.Equal(k.got, disk[k.st:k.st+k.sz]) {
+				r.Violate("c08-lazy-result-overwritten", "the bytes returned by lazy ReadData(%d,%d) in op %d were correct then, and differ from the disk image after later operations (first diff at %d)", k.st, k.sz, k.op, firstDiff(k.got, disk[k.st:k.st+k.sz]))
+				return
+			}
+		}
+	}()
 	for op := 0; op < nops; op++ {
 		p := mp[t.Draw(len(mp))]
 		ps, pe := p.box.Payload(), p.box.End()
@@ -361,6 +403,9 @@ func c08Run(r *sim.Run) {
 			r.Logf("op%d ReadData(%d,%d) lazy -> %d bytes, err=%v", op, st, sz, len(got), err)
 			r.Event("ReadData", btoi(err != nil))
 			c08CheckBytes(r, "ReadData", st, sz, disk, got, err, faulty, h, false)
+			if err == nil {
+				keep = append(keep, kept{op, st, sz, got})
+			}
 			if cfg.TruncAt < 0 {
 				var gm []byte
 				var em error
